@@ -13,15 +13,21 @@ def job_segment(ses, proto, fkind):
         if not is_ok(re_): continue
         T = re_[3][0]; sg = segments(T)
         Fb = inp.F if fkind == 'some' else StringVal('')
-        if sg is None: ses.undecided.append('%s: produced token is not structured: %s' % (proto, str(T)[:100])); continue
+        if sg is None:
+            # the token text is not of the form the segment view needs (an encoder the model does not know): the claim is stated on the text itself
+            H = StringVal(proto + '.')
+            goal = Or(Not(PrefixOf(H, T)), And(Fb != StringVal(''), Not(SuffixOf(Concat(StringVal('.'), b64(utf8(Fb))), T))))
+            rec = ses.obligation('%s footer=%s: the produced text starts with the header and ends with "." || b64url(F) for a non-empty F' % (proto, fkind), list(se.pc) + [goal], values=[utf8(Fb)])
+            if rec: ses.violation('%s: the produced token does not end with "." || base64url(footer)' % proto, fmt_model(['footer'], rec), {'kind': 'footer_segment', 'proto': proto, 'model': fmt_model(['footer'], rec)})
+            continue
         if len(sg) == 4:
             want = [b64(utf8(Fb))] if fkind == 'some' else []
             rec = ses.obligation('%s footer=%s: the 4th segment is b64url(F) and F is non-empty' % (proto, fkind), list(se.pc) + [Or(Not(seg_eq(sg[3], want)), Fb == StringVal(''))])
-            if rec: ses.violation('%s: footer segment is not base64url(footer) / present for an empty footer' % proto, {}, None)
+            if rec: ses.violation('%s: footer segment is not base64url(footer) / present for an empty footer' % proto, {}, {'kind': 'footer_segment', 'proto': proto})
         elif len(sg) == 3:
             rec = ses.obligation('%s footer=%s: a token without footer segment is produced only for an empty footer' % (proto, fkind), list(se.pc) + [Fb != StringVal('')], values=[utf8(Fb)])
-            if rec: ses.violation('%s: a non-empty footer produces no footer segment' % proto, {}, None)
-        else: ses.violation('%s: produced token has %d segments' % (proto, len(sg)), {'token': str(T)[:200]}, None)
+            if rec: ses.violation('%s: a non-empty footer produces no footer segment' % proto, {}, {'kind': 'footer_segment', 'proto': proto})
+        else: ses.violation('%s: produced token has %d segments' % (proto, len(sg)), {'token': str(T)[:200]}, {'kind': 'footer_segment', 'proto': proto})
     ses.absorb(ex)
 
 
@@ -38,6 +44,8 @@ def run(ses):
     from .. import kani
     jobs.append((kani.job_footer_compare, ()))
     jobs += upper.footer_jobs(ses.tier)
+    from .. import coreapi
+    jobs.append((coreapi.job_core_api, ()))        # newtype constructors, builder(), setters, Clone: what the caller writes reaches the entry point unchanged
     run_jobs(ses, jobs)
     ses.trusted_base = c04.TRUSTED + ['base64url encoding is injective and strict decoding is canonical']
     ses.assumptions = ['F, F\' arbitrary strings (absent == empty); key and assertion as at build time']
@@ -45,4 +53,4 @@ def run(ses):
 
 confirm = c01.confirm
 replay = c01.replay
-BASELINE = ['footer_compare', 'setter']
+BASELINE = ['core_api', 'footer_compare', 'setter', 'footer_segment']
